@@ -12,7 +12,15 @@ PROP = dict(
              "(len 0-64, biased to , = brackets space quotes), 18% through the prop shorthand (each also pushed through the real "
              "value scanner and two user-defined scanners), 9% through a user-defined tag scanner (Required field unset / true / "
              "false x tag lookup / ExtractHandler; half of these tags built around the forms of required-ness: none, bare, =true, "
-             "=false, next to other arguments); a case is non-trivial when it "
+             "=false, next to other arguments); every tenth case is followed by a HISTORY (scenario H, fifth round): property A is created "
+             "from a (salted, so run-unique) tag text, its arguments are edited by 1-3 calls of Args().Set / Args().Add / SetArg / AddArg "
+             "(60% on required/Required, else qualifier, an argument of the tag, a random or empty name), then property B is created from the "
+             "SAME text (70%), the same arguments behind another value (15%) or another text (15%); 10% arbitrary bytes; through NewProperty (35%), "
+             "as two fields of one component scanned once by a user-defined scanner (30%, B read after the edit), through two scans in two "
+             "registries (30%), or through two real applications in the process with a user post-processor doing the edits (5%, wire point "
+             "nobody can fill: start outcome observed); oracle tag-history: B equals what the same route gave before the edits and what the "
+             "harness' own reader (tagReadOwn) reads off the text; tag-history-start: the second application starts iff the text says "
+             "required=false; a case is non-trivial when it "
              "contains an argument, a bracket, or a separator; distinct = distinct scenario lines",
         trusted_base=COMMON_TB + ["strings.Index/Count/ToUpper and Go slice semantics as modelled in Ioc.Tag (validated by the correspondence)",
                                   "reflect.StructTag.Lookup for the prop shorthand path and the scanner paths"],
